@@ -25,7 +25,10 @@ EntryOfText(r, t) == r.texts[CHOOSE i \in 1..Len(r.texts) : r.texts[i].t = t].en
 InTree(r, s, f) == s.has /\ s.main \in DOMAIN s.an /\ (f = s.main \/ f \in ImpOf(r, s.an[s.main]))
 OkNow(r, disk, b) == Resolvable(disk, b, r.cfg, LAMBDA t : EntryOfText(r, t))
 MainNow(r, disk, b) == EntryFile(disk, b, r.cfg, LAMBDA t : EntryOfText(r, t))
-Coded == AllDeviations          \* the fold uses the transitions as coded; the verdicts below are the ideal property
+(* The reading the fold uses: the deviations that are still open (one record [dev] per line in the file IOEnv.DEVS).  *)
+(* A repaired defect is folded in its ideal reading, and an observation that shows it again is a violation.             *)
+DevRec == ndJsonDeserialize(IOEnv.DEVS)
+Coded == {DevRec[i].dev : i \in 1..Len(DevRec)} \cap AllDeviations
 NoDiag(g) == "none"
 
 Step1(r, disk, s, e) ==
@@ -43,10 +46,10 @@ BadRanges(r, disk, buf, rs) ==
 
 JudgeReq(r, disk, s, e) ==
   LET known == e.f \in DOMAIN disk
-      pred  == IF known /\ InTree(r, s, e.f) THEN DeathOf(e.kind, LtOf(r, s.an[e.f]), e.line, e.ch) ELSE ""
+      pred  == IF known /\ InTree(r, s, e.f) THEN DeathOf(e.kind, LtOf(r, s.an[e.f]), e.line, e.ch, Coded) ELSE ""
       where == e.kind \o " at " \o ToString(e.line) \o ":" \o ToString(e.ch) \o " in " \o e.f
       total == IF e.status \in {"ok", "error"}
-                 THEN IF pred # "" /\ e.nonnull THEN <<V(r.id, "drift", pred, "model predicts a crash, the server answered: " \o where)>> ELSE <<>>
+                 THEN IF pred # "" THEN <<V(r.id, "drift", pred, "model predicts a crash, the server answered: " \o where)>> ELSE <<>>
                ELSE IF pred # "" THEN <<V(r.id, "deviation", pred, where \o " -> " \o e.status \o " " \o e.panic)>>
                ELSE <<V(r.id, "violation", "", "Total: request not answered (" \o e.status \o " " \o e.panic \o "): " \o where)>>
       br    == IF e.status = "ok" THEN BadRanges(r, disk, s.buf, e.ranges) ELSE {}
